@@ -51,3 +51,57 @@ def root_never_matched(fx):
     if n == 0:
         obs.append(anchor_ob("R-ORDER", "a filter_entry closure that consults Gitignore::matched"))
     return obs
+
+
+MATCH_PREDS = {"ignore::Match::<T>::is_ignore": "is_ignore", "ignore::Match::<T>::is_none": "is_none",
+               "ignore::Match::<T>::is_whitelist": "is_whitelist"}
+
+
+def verdict_readback(fx):
+    """What the matcher answers is one of None / Ignore / Whitelist, and an entry is excluded iff the answer is
+    Ignore: a rule re-included by a later `!pattern` (Whitelist) is kept, like an unmatched one.  The filter must
+    read the answer in a way that separates Ignore from *both* others: `is_ignore()`, or `is_none()` together with
+    `is_whitelist()`, or a match on the value."""
+    from cfg import defuse
+    import views
+    obs = []
+    n = 0
+    for f in fx.fns.values():
+        if f.crate != "libxcp" or f.from_expansion and not f.is_closure:
+            continue
+        for m in MATCHERS:
+            for bi, t in q.calls_to(f, m):
+                if t["dest"].get("p"):
+                    continue
+                du = defuse(f)
+                preds, switched = set(), False
+                seen, work = set(), [t["dest"]["l"]]
+                while work:
+                    x = work.pop()
+                    if x in seen:
+                        continue
+                    seen.add(x)
+                    for site, how in du.uses.get(x, []):
+                        nd = site.node
+                        if site.is_term:
+                            if nd["k"] == "call":
+                                o_ = q.names(nd)[0] or ""
+                                if o_ in MATCH_PREDS:
+                                    preds.add(MATCH_PREDS[o_])
+                            continue
+                        rv = nd["rv"]
+                        if rv["k"] in ("ref", "use") and not nd["lhs"].get("p"):
+                            work.append(nd["lhs"]["l"])
+                        elif rv["k"] == "discr":
+                            switched = True
+                ok = switched or "is_ignore" in preds or {"is_none", "is_whitelist"} <= preds
+                n += 1
+                obs.append(Ob("R-TABLE", mkkey("R-TABLE", f.root if f.is_closure else f.path, m, n - 1, "verdict"), ok, q.loc_of(t), f.path,
+                              "the matcher's answer is read by %s: %s" % (
+                                  sorted(preds) or ("a match" if switched else "nothing"),
+                                  "Ignore is told apart from None and Whitelist" if ok else
+                                  "a re-included (Whitelist) entry and an unmatched one are not both kept"),
+                              None if ok else dict(predicates=sorted(preds))))
+    if n == 0:
+        obs.append(anchor_ob("R-TABLE", "a Gitignore::matched call in libxcp"))
+    return obs
